@@ -118,7 +118,7 @@ func (r *Run) Violation(sig, key, msg string, replay interface{}) {
 		}
 		r.shardKeys[sig+"|"+key]++
 		if r.shardKeys[sig+"|"+key] <= 3 {
-			r.shardViol = append(r.shardViol, shardViolation{sig, key, msg, fmt.Sprint(replay)})
+			r.shardViol = append(r.shardViol, shardViolation{sig, key, msg, fmt.Sprintf("%v", replay)})
 		}
 		return
 	}
@@ -203,6 +203,14 @@ func (r *Run) Finish() int {
 	}
 	ev := &drv.Evidence{PropertyID: r.Prop, Tier: r.Tier, Level: r.Level, Coverage: cov, Assumptions: r.Assumptions,
 		WallS: time.Since(r.t0).Seconds(), Violations: r.violations}
+	if os.Getenv("VERIF_ONLY_INDEX") != "" {
+		// a replay of one case: report, but leave the evidence of the last full run alone
+		fmt.Printf("%s replay: violations=%d\n", r.Prop, r.violations)
+		if r.violations > 0 {
+			return 1
+		}
+		return 0
+	}
 	if err := drv.WriteEvidence(ev); err != nil {
 		fmt.Println("INFRA: cannot write evidence:", err)
 		return 2
